@@ -21,5 +21,12 @@ ShapeView ==
   [sh \in shs |-> Cardinality({s \in fo.tops : ListShape(s) = sh})]
 \* the calls leading to the source state, then the transition with its full
 \* expected observation (every prefix is the last step of another line)
+\* ... and, coarser, states that differ only by names and values
+RECURSIVE Skel(_)
+Skel(n) == [i \in 1..Len(fo.kids[n]) |-> Skel(fo.kids[n][i])]
+ListSkel(s) == [i \in 1..Len(s) |-> Skel(s[i])]
+SkelView ==
+  LET shs == {ListSkel(s) : s \in fo.tops} IN
+  [sh \in shs |-> Cardinality({s \in fo.tops : ListSkel(s) = sh})]
 Emit  == PrintT(<<"BEHAV", ToJson(Append(hist, obs'))>>)
 =============================================================================
